@@ -67,6 +67,12 @@ def unit_rand_arg(which, axis=None):
         a = ArrData((n, m), fresh_sel("a", "f", 2), "f")
         i, j = z3.Ints("i j")
         en, ev = to_real(a.sel(i, j))
+        if axis in ("2d", "2d.axis_none"):
+            # a matrix without axis / with an explicit axis=None: ONE index pair into the whole matrix
+            st.assume(z3.Exists([i, j], z3.And(0 <= i, i < n, 0 <= j, j < m, z3.Not(en))))        # requires: some non-NaN entry
+            E.default_concretize = lambda ev: {"family": "rand_arg", "fn": which, "axis": "none" if axis == "2d" else "explicit_none",
+                                               "sig": "counter-model", "a": cex.arr(ev, a)}
+            return {"args": [st.alloc(a), rng], "a": a, "n": n, "m": m, "kwargs": {} if axis == "2d" else {"axis": None}}
         st.assume(z3.ForAll([i], z3.Implies(z3.And(0 <= i, i < n), z3.Exists([j], z3.And(0 <= j, j < m, z3.Not(en))))))
         E.default_concretize = lambda ev: {"family": "rand_arg", "fn": which, "axis": 1, "sig": "counter-model", "a": cex.arr(ev, a)}
         return {"args": [st.alloc(a), rng], "a": a, "n": n, "m": m, "kwargs": {"axis": 1}}
@@ -93,6 +99,16 @@ def unit_rand_arg(which, axis=None):
                 E.oblige("ensures.in_range", st, z3.And(0 <= r, r < n))
                 E.oblige("ensures.not_nan", st, z3.Not(rn))
                 E.oblige("ensures.optimal", st, z3.ForAll([j], z3.Implies(z3.And(0 <= j, j < n, z3.Not(jn)), le(jv, rv))))
+            elif axis in ("2d", "2d.axis_none"):
+                m = ctx["m"]
+                i = z3.Int("i")
+                E.oblige("ensures.shape.one_index_per_dimension", st, to_int(res.shape[0]) == 2)
+                r, c = to_int(res.sel(z3.IntVal(0))), to_int(res.sel(z3.IntVal(1)))
+                rn, rv = to_real(a.sel(r, c))
+                jn, jv = to_real(a.sel(i, j))
+                E.oblige("ensures.in_range", st, z3.And(0 <= r, r < n, 0 <= c, c < m))
+                E.oblige("ensures.not_nan", st, z3.Not(rn))
+                E.oblige("ensures.optimal", st, z3.ForAll([i, j], z3.Implies(z3.And(0 <= i, i < n, 0 <= j, j < m, z3.Not(jn)), le(jv, rv))))
             else:
                 m = ctx["m"]
                 i = z3.Int("i")
@@ -104,7 +120,7 @@ def unit_rand_arg(which, axis=None):
                 E.oblige("ensures.in_range", st, z3.ForAll([i], z3.Implies(row, z3.And(0 <= r, r < m))))
                 E.oblige("ensures.not_nan", st, z3.ForAll([i], z3.Implies(row, z3.Not(rn))))
                 E.oblige("ensures.optimal", st, z3.ForAll([i, j], z3.Implies(z3.And(row, 0 <= j, j < m, z3.Not(jn)), le(jv, rv))))
-    tag = which + ("" if axis is None else ".axis1")
+    tag = which + ("" if axis is None else ".axis1" if axis == 1 else "." + axis)
     return se_unit(f"selection.{tag}", F, which, None, setup, post, lib_factory=lambda: sel_lib(True))
 
 
@@ -318,6 +334,10 @@ UNITS = {
     "rand_argmin": unit_rand_arg("rand_argmin"),
     "rand_argmax.axis1": unit_rand_arg("rand_argmax", axis=1),
     "rand_argmin.axis1": unit_rand_arg("rand_argmin", axis=1),
+    "rand_argmax.2d": unit_rand_arg("rand_argmax", axis="2d"),
+    "rand_argmin.2d": unit_rand_arg("rand_argmin", axis="2d"),
+    "rand_argmax.2d.axis_none": unit_rand_arg("rand_argmax", axis="2d.axis_none"),
+    "rand_argmin.2d.axis_none": unit_rand_arg("rand_argmin", axis="2d.axis_none"),
     "rand_argmax.tie_fairness": unit_tie_fairness("rand_argmax"),
     "rand_argmin.tie_fairness": unit_tie_fairness("rand_argmin"),
     "simple_batch.max": unit_simple_batch("max"),
